@@ -50,6 +50,9 @@ HARNESSES.update({
         bounds="FastFixedIn<f64> orig=0.012400514220697175 max=63.14900589023214"),
     "c12_rel_sfi_a": H("c12", ["C12"], sym="x: every f64; ramp",
         bounds="SincFixedIn<f32>+Probe(2,1) orig=1.7 max=3"),
+    "c12_rel_ffo_a": H("c12", ["C12"], sym="x: every f64; ramp", bounds="FastFixedOut<f64> orig=0.75 max=3"),
+    "c12_rel_sfo_a": H("c12", ["C12"], sym="x: every f64; ramp", bounds="SincFixedOut<f64>+Probe(2,1) orig=1.25 max=1.5"),
+    "c12_chunk_twice": H("c12", ["C12"], sym="c1, c2: every usize", bounds="SincFixedIn and SincFixedOut (+Probe(2,1)), construction chunk 5; two successive set_chunk_size calls"),
     "c12_rel_as_abs_getters": H("c12", ["C12"], sym="x: every f64; ramp",
         bounds="FastFixedOut<f64> and SincFixedIn<f64>+Probe(2,1), orig 0.75 max 2; twins get set_resample_ratio(orig*x); all getters compared; no processing call"),
     "c12_rel_as_abs_ffi": H("c12", ["C12"], tier="thorough", sym="x: every f64; ramp",
@@ -106,3 +109,54 @@ _c13("c13_witness", "final checks must FAIL (vacuity witness)", witness=True)
 _c13("c13_shape_ftio_lite", "FftFixedInOut<f64> 2->3 chunk 2, 2 channels; result classification, writes nothing, getters unchanged (no follow-up call)", stubs=FFT_STUBS)
 _c13("c13_shape_fti_lite", "FftFixedIn<f64> 2->3 chunk 2, 2 channels; as above", stubs=FFT_STUBS)
 _c13("c13_shape_fto_lite", "FftFixedOut<f64> 2->3 chunk 3, 2 channels; as above", stubs=FFT_STUBS)
+
+# ---------------------------------------------------------------- C09: no heap traffic
+ALLOC_STUBS = ["std::alloc::{alloc, alloc_zeroed, dealloc, realloc} -> asserting wrappers forwarding to __rust_alloc*"]
+_c09_a = ("none: concrete history (heap traffic depends on control flow, not on values)",
+          "one real-time section: all getters, call, set_resample_ratio_relative(0.75, ramp), masked call [true,false], set_chunk_size(2), all-masked call, reset, call, getters")
+_c09_b = ("set_resample_ratio argument and set_resample_ratio_relative argument: every f64 (NaN/inf, accepted or rejected); ramp; set_chunk_size: every usize; mask entry; first channel length in [0, max] (error path and success path)",
+          "fresh instance; one real-time section: both setters, set_chunk_size, one call, getters")
+def _c09(name, typ, part, stubs=(), cap=480, witness=False):
+    sym, sec = (_c09_a if part == "a" else _c09_b)
+    HARNESSES[name] = H("c09", ["C09"], cap=cap, sym=sym, bounds=typ + "; " + sec,
+                        stubs=ALLOC_STUBS + list(stubs), untagged="C09", witness=witness, mem=8)
+for nm, typ, st in (("ffo", "FastFixedOut<f64> Linear chunk 2, 2 ch, max_rel 2", ()),
+                    ("ffi", "FastFixedIn<f32> Nearest chunk 2, 2 ch, max_rel 2", ()),
+                    ("sfo", "SincFixedOut<f64>+Probe(2,2) Linear chunk 2, 2 ch", ()),
+                    ("sfi", "SincFixedIn<f32>+Probe(2,2) Cubic chunk 2, 2 ch", ()),
+                    ("ftio", "FftFixedInOut<f64> 2->3 chunk 2, 2 ch", FFT_STUBS),
+                    ("fti", "FftFixedIn<f64> 2->3 chunk 3, 2 ch", FFT_STUBS),
+                    ("fto", "FftFixedOut<f32> 2->3 chunk 4, 2 ch", FFT_STUBS)):
+    _c09("c09_%s_a" % nm, typ, "a", st)
+    _c09("c09_%s_b" % nm, typ, "b", st)
+HARNESSES["c09_sfo_real_kernel"] = H("c09", ["C09"], cap=900, tier="thorough", mem=10, untagged="C09",
+    sym="none (concrete); table values arbitrary (Kani sin/cos)",
+    bounds="SincFixedOut<f64> built by the real new(): sinc_len 8, oversampling 2, Hann, scalar kernel; two calls (one masked)",
+    stubs=ALLOC_STUBS + ["CpuFeature::is_detected -> false"])
+HARNESSES["c09_witness"] = H("c09", ["C09"], witness=True, cap=300, untagged="C09", sym="none",
+    bounds="process() inside the section must trip the monitor (vacuity witness)", stubs=ALLOC_STUBS)
+
+# ---------------------------------------------------------------- C10: reset == fresh (also C03: untagged checks after reset)
+_c10_sym_thorough = "pre-reset history: ratio change with every accepted f64 (D_full; FixedIn: k/32 grid), ramp bool, mask entry, optional pending relative ramp, a failed call; post-reset calls compared with a fresh twin"
+def _c10(name, bounds, sym, stubs=(), cap=600, witness=False, tier="quick"):
+    HARNESSES[name] = H("c10", ["C10", "C03"], cap=cap, sym=sym, bounds=bounds, stubs=stubs, untagged="C03", witness=witness, mem=8, tier=tier)
+_conc = "none in the history (concrete: constant-folds); the solver decides every memory-safety/overflow check on the path and the equalities against the fresh twin"
+_c10("c10_ffo_lowered", "FastFixedOut<f64> Linear chunk 2, 1 ch, max_rel 2; history: ratio 0.5 stepped, 1 masked call; reset; getters + 3 calls vs fresh twin", _conc)
+_c10("c10_ffo_ramp_pending", "FastFixedOut<f32> Cubic chunk 2, 1 ch; history: ratio 1.75 ramped, 2 calls, pending relative ramp 1.25, failed call; reset; 3 calls vs twin", _conc)
+_c10("c10_ffi_lowered", "FastFixedIn<f64> Linear chunk 3, 1 ch; history: ratio 0.5 stepped, 4 calls; reset; 5 calls vs twin", _conc)
+_c10("c10_ffi_ramp_pending", "FastFixedIn<f32> Septic chunk 3, 1 ch; history: ratio 2.0 ramped, 3 calls, pending ramp, failed call; reset; 5 calls vs twin", _conc)
+_c10("c10_sfo_lowered_chunk", "SincFixedOut<f64>+Probe(4,2) Linear max chunk 3, 1 ch; history: set_chunk_size(1), ratio 0.5 stepped, 2 calls; reset; 3 calls vs twin", _conc)
+_c10("c10_sfo_ramp_pending", "SincFixedOut<f32>+Probe(4,2) Cubic chunk 3, 1 ch; history: ratio 1.5 ramped, 1 call, pending ramp, failed call; reset; 3 calls", _conc)
+_c10("c10_sfi_lowered_chunk", "SincFixedIn<f64>+Probe(4,2) Linear max chunk 3, 1 ch; history: set_chunk_size(2), ratio 0.5, 4 calls; reset; 5 calls vs twin", _conc)
+_c10("c10_sfi_ramp_pending", "SincFixedIn<f32>+Probe(4,3) Quadratic chunk 3, 1 ch; history: ratio 2.0 ramped, 3 calls, pending ramp, failed call; reset; 5 calls", _conc)
+_fft_sym = "mask entry of the pre-reset calls; number of pre-reset calls concrete per harness"
+_c10("c10_fto_1", "FftFixedOut<f64> 2->3 chunk 4 (block 2/3), 1 ch; 1 call, reset, 3 calls vs fresh twin", _fft_sym, stubs=FFT_STUBS)
+_c10("c10_fto_2", "FftFixedOut<f64> 2->3 chunk 4, 1 ch; 2 calls, reset, 3 calls vs fresh twin", _fft_sym, stubs=FFT_STUBS)
+_c10("c10_fto_mult_2", "FftFixedOut<f64> 2->3 chunk 6 = 2 blocks, sub_chunks 2, 1 ch; 2 calls, reset, 3 calls vs fresh twin", _fft_sym, stubs=FFT_STUBS)
+_c10("c10_fti_1", "FftFixedIn<f64> 2->3 chunk 3 (block 4/6), 1 ch; 1 call, reset, 3 calls", _fft_sym, stubs=FFT_STUBS)
+_c10("c10_fti_2", "FftFixedIn<f64> 2->3 chunk 3, 1 ch; 2 calls, reset, 3 calls", _fft_sym, stubs=FFT_STUBS)
+_c10("c10_ftio_1", "FftFixedInOut<f64> 2->3 chunk 2, 1 ch; 1 call, reset, 2 calls", _fft_sym, stubs=FFT_STUBS)
+_c10("c10_ffo_sym", "FastFixedOut<f64> Linear chunk 2, 2 ch; symbolic history; reset; 2 calls vs twin", _c10_sym_thorough, tier="thorough", cap=3600)
+_c10("c10_ffi_sym", "FastFixedIn<f64> Linear chunk 3, 2 ch; symbolic history; reset; 3 calls vs twin", _c10_sym_thorough, tier="thorough", cap=3600)
+_c10("c10_sfo_sym", "SincFixedOut<f64>+Probe(4,2) chunk 3, 2 ch; set_chunk_size(1), symbolic history; reset; 2 calls vs twin", _c10_sym_thorough, tier="thorough", cap=3600)
+_c10("c10_witness", "no reset before the comparison: must FAIL (vacuity witness)", "none", witness=True)
